@@ -75,6 +75,10 @@ func main() {
 	}
 	a.Tier = *tier
 	a.prop = p
+	if *survey == "allocs" {
+		a.Rule("survey", 0, func() { a.surveyAllocSizes() })
+		return
+	}
 	if *survey != "" {
 		parts := strings.SplitN(*survey, ".", 2)
 		a.Rule("survey", 0, func() {
